@@ -8,6 +8,7 @@ import (
 	"github.com/google/uuid"
 	"massnet.org/mass/fractal/connection"
 	"massnet.org/mass/fractal/protocol"
+	engine_v2 "massnet.org/mass/poc/engine.v2"
 
 	"verifharness/vh"
 )
@@ -77,6 +78,78 @@ func special(d *drv, mode string, rec *vh.Rec) {
 		d.settle()
 		time.Sleep(50 * time.Millisecond)
 		ev["handed"] = l.count(nameUUID("task", "t1", d.w.seed))
+		ev["res"] = "ok"
+	case "Reborn":
+		// the connection of a relay is reset in the middle and the relay stays up: after its retry interval (30 s) the
+		// PersistentRemoteSuperior dials again; the relay's own collectors stay subscribed across the outage
+		d.home["c3"] = "r1"
+		ev["connect"] = d.connect("r1")
+		r := d.relays["r1"]
+		if r == nil {
+			ev["res"] = "no relay"
+			return
+		}
+		l := d.leafOf("c3")
+		r.prs.Subscribe(d.ctx, l)
+		ev["add_t1"] = d.addTask("t1", "bcast", "")
+		d.settle()
+		t1 := nameUUID("task", "t1", d.w.seed)
+		ev["t1_before"] = l.count(t1)
+		oldID := r.rcID
+		r.px.cut()
+		ev["pool_noticed"] = waitFor(3*time.Second, func() bool { return d.pool.Count() == 0 })
+		ev["reborn"] = waitFor(45*time.Second, func() bool { return d.pool.Count() == 1 })
+		// the relay is a new collector for the superior; learn its id and check the path both ways
+		// the pool has the new connection before the relay has switched to it (Reborn installs the new reader and
+		// writer after the dial returned): reports sent in between go to the old, closed writer and are refused
+		synced := false
+		for try := 0; try < 15 && !synced; try++ {
+			synced = d.sync(r)
+			if !synced {
+				time.Sleep(300 * time.Millisecond)
+			}
+		}
+		ev["sync_after"] = synced
+		// each lane on its own
+		for _, lane := range []string{"ordinary", "priority"} {
+			var err error
+			tag := "probe-" + lane
+			if lane == "ordinary" {
+				err = r.prs.ReportQualities(d.ctx, r.probe.id, &protocol.ReportQualities{TaskID: d.helloID, Qualities: []*protocol.Quality{{WorkSpaceQuality: &engine_v2.WorkSpaceQuality{
+					SpaceID: tag, PublicKey: d.w.k.g1[0], PoolPublicKey: d.w.k.g1[1], Quality: []byte{1}, PlotID: hashOf("m")}}}})
+			} else {
+				err = r.prs.ReportSignature(d.ctx, r.probe.id, &protocol.ReportSignature{TaskID: d.helloID, SpaceID: tag, Hash: hashOf("m"), Signature: d.w.k.g2[0]})
+			}
+			got := "no"
+			deadline := time.After(3 * time.Second)
+		wait:
+			for {
+				select {
+				case m := <-d.hello:
+					if m != nil {
+						got = "yes"
+						r.rcID = m.CollectorID
+						d.srcName[r.rcID] = "r1"
+						break wait
+					}
+				case <-deadline:
+					break wait
+				}
+			}
+			ev["lane_"+lane] = fmt.Sprintf("err=%v arrived=%s", err, got)
+		}
+		ev["new_id"] = r.rcID != oldID
+		waitFor(3*time.Second, func() bool { return l.count(t1) >= 2 })
+		ev["t1_after"] = l.count(t1) // handed over again: the relay connected while t1 is current
+		ev["add_t2"] = d.addTask("t2", "target", "r1")
+		d.settle()
+		ev["t2"] = l.count(nameUUID("task", "t2", d.w.seed))
+		ev["report"] = d.report("c3", "t2", []string{"p4"})
+		tk := vh.Event{}
+		d.take("t2", tk)
+		ev["take"] = fmt.Sprintf("%v/%v/%v", tk["res"], tk["src"], tk["p"])
+		ev["disconnect"] = d.disconnect("r1")
+		ev["prompt"] = within(3*time.Second, d.stopPl)
 		ev["res"] = "ok"
 	case "BadFrame":
 		// a peer sends one frame the codec refuses and keeps sending: the pool must drop it and go on serving
